@@ -141,8 +141,12 @@ def abbreviations(limit):
     out += ['a[onclick="f(1, 2)"]', 'td[title="a (b c) d"]*2', 'p{a (b c) d}', 'ea{(}', 'ea{)}+eb', 'ea{]}', 'ea[t="x]y"]>eb',
             'div[style="color: rgb(0, 0, 0)"]>p', "a[href=\"javascript:alert('x')\"]",
             'x[a="("]', 'x[a=")"]', 'x[a="["]', "x[a='{']", 'x{\\}}']
+    # abbreviations that BEGIN with a bracketed part (text node, group, nameless element) followed by an operator
+    lead = ['{y}>ea', '(ea+eb)>ec', '[t=x]>ea', '{a(b)}+ea', '(ea>eb)+ec>ed', '{y}*2>ea']
+    out = lead + out
     out = list(dict.fromkeys(out))
     special = [a for a in out if '(' in a.split('[', 1)[-1] or '"' in a or '{(' in a or '{)' in a or '{]' in a or "'" in a or '\\' in a]
+    special = lead + [a for a in special if a not in lead]
     out = special + [a for a in out if a not in special]
     return out[:limit]
 
@@ -336,7 +340,7 @@ def jobs(tier):
     for pfx in ('>>', '<%', '!!!'):
         out.append(Job('C11-a/prefix2/%s' % pfx, 'vf.props.c11:mk_prefix2', dict(pfx=pfx, n=3 if q else 4), shape='W',
                        bound='line <=%d chars' % (3 if q else 4), budget=1500 if q else 6000, weight=5000))
-    limit = 48 if q else 150
+    limit = 54 if q else 156
     nparts = 6 if q else 14
     if q:
         combos = [('none', 'none', True), ('none', 'sym', True), ('sym1', 'none', True), ('tag', 'none', True),
